@@ -966,29 +966,86 @@ func c11RuntimeReload(c *core.Ctx, r *c11Router, decls map[*types.Func]*ast.Func
 		}
 		return false
 	}
-	callers := map[*ast.FuncDecl]bool{}
-	for _, m := range reloads {
-		for _, s := range sites[m] {
-			callers[s.caller] = true
-		}
-	}
-	if len(callers) == 0 {
-		c.Violate("R-C11-2", hs+".runtime|router reloaded on every update", c.Prog.Rel(reloads[0].Pos()), "nothing calls the mux's reload: rule/option updates are not applied to the router")
+	// the update handlers: same-package functions that receive the new *supervisor.Spec and
+	// (transitively) reload the mux; the outermost ones are where an update is accepted
+	supSpec := namedType(c, c11Sup, "Spec")
+	hsSpec := namedType(c, hs, "Spec")
+	if supSpec == nil || hsSpec == nil {
 		return
 	}
-	var fds []*ast.FuncDecl
-	for fd := range callers {
-		fds = append(fds, fd)
+	cnt := c11NewCounter(c, pkg, decls, func(g *flow.Func, call *ast.CallExpr) bool { return isReload(g.Callee(call)) })
+	takesSpec := func(o *types.Func) bool {
+		sig := o.Type().(*types.Signature)
+		for i := 0; i < sig.Params().Len(); i++ {
+			if types.Identical(sig.Params().At(i).Type(), types.NewPointer(supSpec)) {
+				return true
+			}
+		}
+		return false
 	}
-	sort.Slice(fds, func(i, j int) bool { return fds[i].Pos() < fds[j].Pos() })
-	for _, fd := range fds {
-		cnt := c11NewCounter(c, pkg, map[*types.Func]*ast.FuncDecl{}, func(g *flow.Func, call *ast.CallExpr) bool { return isReload(g.Callee(call)) })
+	// a handler hands the spec it received on to the reload (directly or through another handler)
+	handler := map[*types.Func]bool{}
+	for changed := true; changed; {
+		changed = false
+		for o, fd := range decls {
+			if handler[o] || isReload(o) || !takesSpec(o) {
+				continue
+			}
+			g := flow.NewFunc(pkg, fd)
+			for _, call := range calls(fd.Body, true) {
+				callee, ok := g.Callee(call).(*types.Func)
+				if !ok || !(isReload(callee) || handler[callee.Origin()]) {
+					continue
+				}
+				for _, a := range call.Args {
+					if tv, ok := g.Info.Types[a]; ok && tv.Type != nil && types.Identical(tv.Type, types.NewPointer(supSpec)) {
+						handler[o] = true
+						changed = true
+					}
+				}
+			}
+		}
+	}
+	var roots []*types.Func
+	for o := range handler {
+		outer := true
+		for _, st := range sites[o] {
+			if co, ok := pkg.TypesInfo.Defs[st.caller.Name].(*types.Func); ok && handler[co] && co != o {
+				outer = false
+			}
+		}
+		if outer {
+			roots = append(roots, o)
+		}
+	}
+	sort.Slice(roots, func(i, j int) bool { return roots[i].Pos() < roots[j].Pos() })
+	if len(roots) == 0 {
+		c.Violate("R-C11-2", hs+".runtime|router reloaded on every update", c.Prog.Rel(reloads[0].Pos()), "no function that receives a new *supervisor.Spec reloads the mux: rule/option updates are not applied to the router")
+		return
+	}
+	for _, root := range roots {
+		fd := decls[root]
 		f := flow.NewFunc(pkg, fd)
 		cons := declName(pkg, fd) + "|router reloaded on every update"
-		res := analyze(c, f, flow.Config{NoHavoc: true, Track: func(string) bool { return false },
+		c.Count("functions_analysed", 1)
+		// variables holding the new object spec (*Spec of this package): a path on which one of
+		// them is known to be nil is the defensive "no spec" path, not an accepted update
+		specVar := map[*types.Var]*ast.Ident{}
+		ast.Inspect(fd, func(n ast.Node) bool {
+			if id, ok := n.(*ast.Ident); ok {
+				if v, ok := f.Info.Defs[id].(*types.Var); ok && !v.IsField() && types.Identical(v.Type(), types.NewPointer(hsSpec)) {
+					specVar[v] = id
+				}
+			}
+			return true
+		})
+		res := analyze(c, f, flow.Config{NoHavoc: true, Track: func(k string) bool { return strings.HasPrefix(k, "nil:") },
 			OnCall: func(st *flow.State, call *ast.CallExpr, callee types.Object, deferred bool) {
-				if cnt.isEvent(f, call) {
+				for i, n := 0, cnt.weight(f, call); i < n; i++ {
 					c11Bump(st, "ev:reload")
+				}
+				for i, n := 0, cnt.minWeight(f, call); i < n; i++ {
+					c11Bump(st, "ev:surely")
 				}
 			}})
 		if res == nil {
@@ -1000,9 +1057,15 @@ func c11RuntimeReload(c *core.Ctx, r *c11Router, decls map[*types.Func]*ast.Func
 			if ex.Kind != flow.ExitReturn {
 				continue
 			}
+			noSpec := false
+			for _, id := range specVar {
+				if ex.State.Is(f.NilKey(id), flow.True) {
+					noSpec = true
+				}
+			}
 			switch {
-			case !ex.State.Is("ev:reload:1", flow.True):
-				bad, why = ex, "the update handler can return without reloading the router: the update is applied to the server options but new requests are still routed by the old generation"
+			case !noSpec && !ex.State.Is("ev:surely:1", flow.True):
+				bad, why = ex, "the update handler can return, having accepted a new spec, without the router having been reloaded with it (e.g. on the restart branch): the listener and the server options follow the new spec but requests are still routed by the previous generation's rules"
 			case ex.State.Is("ev:reload:2", flow.True):
 				bad, why = ex, "the router is reloaded twice for one update"
 			}
@@ -1014,6 +1077,6 @@ func c11RuntimeReload(c *core.Ctx, r *c11Router, decls map[*types.Func]*ast.Func
 		if bad != nil {
 			w = witness(bad.State)
 		}
-		c.Check(bad == nil, "R-C11-2", cons, pos(c, fd.Name), sprintf("%d exits, each after exactly one reload of the mux", len(res.Exits)), why, w...)
+		c.Check(bad == nil, "R-C11-2", cons, pos(c, fd.Name), sprintf("%d exits: every path that accepts a new spec reloads the mux exactly once (directly or in a same-package helper)", len(res.Exits)), why, w...)
 	}
 }
